@@ -64,7 +64,7 @@ class D(RenderDriver):
         if eng:
             return eng
         if not meta:
-            return None
+            meta = {"root": gd.from_xml(doc)}
         # known mechanism: a gradient processed before the template it references inherits the
         # template's coordinates *after* the template's own translation was folded into them.
         # Simulation in the reference model: with the template declared first the same document converts correctly.
@@ -91,7 +91,8 @@ class D(RenderDriver):
                 c = next((x for x in d.children if x.attrs.get("id") == h), None)
                 n += 1
             return n
-        d.children.sort(key=depth)
+        depths = {id(c): depth(c) for c in d.children}  # (a list looks empty to its own sort key)
+        d.children.sort(key=lambda c: depths[id(c)])
         fixed = gd.to_xml(root)
         st, out2 = conv.convert(fixed)
         if st != "ok":
